@@ -10,6 +10,9 @@ import Pog.Model.Stream
                      `writer.write_line(...)` calls (the class writer adds one indentation level).
     * `toMock`     = `MockGenerator._transform_to_mock` (visit/endpoint/generators/mock_generator.py:47-140);
                      result = the lines of the private `CodeWriter`; `toMockCode` = its `get_code()`.
+    * `returnsAsyncIter` = `returns_async_iterator` (visit/endpoint/generators/endpoint_method_generator.py; F47 repaired):
+                     both transformers decide "async generator" by the return annotation of the line closing the signature
+                     being `AsyncIterator[...]` itself.
     * `sigOf`      = a reader of the signature shape that `CodeWriter.write_function_signature`
                      (core/writers/code_writer.py:100-128) and `OverloadMethodGenerator` emit.  It is NOT part of
                      the generator: the correspondence checks it against CPython's own parser (`ast`).
@@ -38,7 +41,8 @@ def txtHasSub (pat : Str) : Str → Bool
 def kAsyncDef : Str := ['a','s','y','n','c',' ','d','e','f',' ']
 def kDef : Str := ['d','e','f',' ']
 def kOverload : Str := ['@','o','v','e','r','l','o','a','d']
-def kAsyncIterator : Str := ['A','s','y','n','c','I','t','e','r','a','t','o','r']
+def kAsyncIteratorBr : Str := ['A','s','y','n','c','I','t','e','r','a','t','o','r','[']
+def kCloseArrow : Str := [')',' ','-','>',' ']
 def kStubEnd : Str := [':',' ','.','.','.']
 def kArrow : Str := [' ','-','>',' ']
 def kIndent4 : Str := [' ',' ',' ',' ']
@@ -54,12 +58,27 @@ def endsColon (s : Str) : Bool := endsWith s [':'] && !endsWith s [',']
 /-- `sig_stripped.endswith(": ...")` -/
 def endsStub (s : Str) : Bool := endsWith s kStubEnd
 
+/-- Split at the first occurrence of `sep` (Python `s.partition(sep)`): `none` when absent. -/
+def txtSplitAt1 (sep : Str) : Str → Option (Str × Str)
+  | [] => if sep.isEmpty then some ([], []) else none
+  | c :: cs =>
+    if startsWith (c :: cs) sep then some ([], (c :: cs).drop sep.length)
+    else (txtSplitAt1 sep cs).map (fun p => (c :: p.1, p.2))
+
+/-- `returns_async_iterator(signature_end)` (visit/endpoint/generators/endpoint_method_generator.py, F47 repaired):
+    `signature_end.partition(") -> ")[2].startswith("AsyncIterator[")` — the return annotation of the line closing a
+    rendered signature IS `AsyncIterator[...]` (before the repair both callers tested `"AsyncIterator" in <text>`). -/
+def returnsAsyncIter (line : Str) : Bool :=
+  match txtSplitAt1 kCloseArrow line with
+  | some p => startsWith p.2 kAsyncIteratorBr
+  | none => false
+
 /-! ## `generate_endpoint_protocol`: the stub of one operation -/
 
 /-- What is written once the line closing the signature has been found (`signature_lines` = `sigs`, non-empty). -/
 def protoEmit (sigs : List Str) : List Str :=
   let last := sigs.getLast?.getD []
-  let isGen := txtHasSub kAsyncIterator last            -- tested on the LAST line only
+  let isGen := returnsAsyncIter last                    -- `returns_async_iterator(sig_stripped)`: the LAST line
   let init := match sigs.dropLast with
     | [] => []                                       -- one-line signature: `async` is never removed
     | f :: r => (if isGen && startsWith f kAsyncDef then kDef ++ f.drop kAsyncDef.length else f) :: r
@@ -130,7 +149,8 @@ def mockGo (cls meth : Str) : MockMode → List Str → List Str
     if isOvlLine s then s :: mockGo cls meth .ovl ls
     else if isAsyncHdr s || isDefHdr s then
       let r := mockCollect (l :: ls)
-      let isGen := r.2 && txtHasSub kAsyncIterator (joinWith [' '] r.1)
+      -- `returns_async_iterator(sig_stripped)` on the line that closed the signature (the last one collected)
+      let isGen := r.2 && returnsAsyncIter (r.1.getLast?.getD [])
       r.1 ++ mockBody cls meth isGen
     else mockGo cls meth .scan ls
   | .ovl, l :: ls =>
@@ -166,13 +186,6 @@ structure MethodSig where
   /-- `true` = one parameter per line (`name(` … `) -> R:`), `false` = the one-line form `name(self) -> R:` -/
   multiLine : Bool
   deriving DecidableEq, Repr
-
-/-- Split at the first occurrence of `sep` (Python `s.partition(sep)`): `none` when absent. -/
-def txtSplitAt1 (sep : Str) : Str → Option (Str × Str)
-  | [] => if sep.isEmpty then some ([], []) else none
-  | c :: cs =>
-    if startsWith (c :: cs) sep then some ([], (c :: cs).drop sep.length)
-    else (txtSplitAt1 sep cs).map (fun p => (c :: p.1, p.2))
 
 /-- `async def NAME(REST` / `def NAME(REST`  →  (isAsync, NAME, REST) -/
 def parseDefHeader (s : Str) : Option (Bool × Str × Str) :=
